@@ -195,7 +195,12 @@ def reuse_case(cid, rng, cfg, imgs):
         elif k == "later":
             cut = b2[:rng.randint(ehsize, len(b2) - 1)]
         else:
-            cut = bytearray(b2); cut[rng.choice([0, 1, 4, 5, 6])] ^= rng.choice([1, 3, 0x80]); cut = bytes(cut)
+            # a damaged identification that is REFUSED: wrong magic, or a class / byte-order byte that names neither
+            # (flipping 1 <-> 2 would make the image load in the other byte order: garbage sizes, files of many MB)
+            cut = bytearray(b2)
+            ix = rng.choice([0, 1, 2, 3, 4, 5])
+            cut[ix] = (cut[ix] ^ rng.choice([1, 3, 0x80])) if ix < 4 else rng.choice([0, 3, 0x80])
+            cut = bytes(cut)
         hist += ", then a load that is cut short or refused (%s)" % k
         re = [rng.choice(["load str 0 ", "load file 0 ", "load file 1 "]) + hx(cut)]
     t = ["hashelf 6d61726b"] + re + ["obsall", "save"]
@@ -210,7 +215,19 @@ def generate(rng, tier):
     cases = []
     imgs = []
     for cfg in CFGS:
-        imgs.append(elfimg.rich_image(rng, cfg[0], cfg[1], nsym=3))
+        # images whose re-saved form stays small: the writer keeps file distance = memory distance inside a segment,
+        # so a section lying megabytes above its segment's address makes save() write megabytes of padding (fine for
+        # the library, minutes for the extracted model)
+        for _ in range(50):
+            im, b = elfimg.rich_image(rng, cfg[0], cfg[1], nsym=3)
+            span = 0
+            for g in im.segments:
+                for s_ in im.sections:
+                    if s_["type"] != 0 and g["vaddr"] <= s_["addr"] < g["vaddr"] + max(g["memsz"], 1):
+                        span = max(span, s_["addr"] - g["vaddr"] + s_["size"])
+            if span <= (1 << 18) and all(g["align"] <= 0x10000 for g in im.segments):
+                break
+        imgs.append((im, b))
     n = 200 if tier == "quick" else 2000
     for i in range(n):
         cfg = CFGS[i % 4]
